@@ -111,7 +111,7 @@ def classify(group, res):
                                        "might not be allowed", "possible bit shift", "cannot show",
                                        "failed to show", "could not prove", "loop invariant", "may underflow",
                                        "recommendation not met", "termination", "might fail",
-                                       "index out of bounds", "constructed value may fail", "unable to prove"))
+                                       "index out of bounds", "constructed value may fail", "unable to prove", "fails to satisfy"))
         rl = ("Resource limit" in msg) or ("rlimit" in msg)
         if code or (not is_vc and not rl):
             hints = []
@@ -125,8 +125,16 @@ def classify(group, res):
             if "unsizing operation from `&mut " in msg and "to `&mut dyn Storage`" in msg:
                 for sp in spans:
                     if sp.get("is_primary") and sp.get("line_start") == sp.get("line_end"):
-                        unsize = (sp["line_start"], sp["column_start"], sp["column_end"])
-            tool.append({"msg": msg, "rendered": d.get("rendered", "")[:2000], "hints": hints, "unsize": unsize})
+                        tm = re.search(r"from `&mut ([A-Za-z_0-9]+)", msg)
+                        unsize = (sp["line_start"], sp["column_start"], sp["column_end"], tm.group(1) if tm else "")
+            havoc = None
+            if " is not supported" in msg and "assume_specification" in msg:
+                hm = re.search(r"may resolve this error:\s*(pub assume_specification.*?;)", d.get("rendered", ""), re.S)
+                if hm:
+                    havoc = " ".join(hm.group(1).split())
+                    havoc = havoc.replace("std::str::<impl str>::", "str::").replace("std::slice::<impl [T]>::", "<[T]>::")
+            in_src = any(1 <= sp.get("line_start", 0) <= len(group.out.map) and group.out.map[sp["line_start"] - 1]["kind"] == "src" for sp in spans)
+            tool.append({"msg": msg, "rendered": d.get("rendered", "")[:2000], "hints": hints, "unsize": unsize, "havoc": havoc, "in_src": in_src})
             continue
         hit_clauses, hit_src, hit_tmpl = [], [], []
         for s in spans:
@@ -201,13 +209,34 @@ def verify_group(gname, scratch, rlimit=30):
                 break
             text = g.gen_text
             lines = text.split("\n")
-            edits = sorted(set((u["unsize"][0], u["unsize"][1], u["unsize"][2]) for u in uns), reverse=True)
-            for (ln, c0, c1) in edits:
+            edits = sorted(set((u["unsize"][0], u["unsize"][1], u["unsize"][2], u["unsize"][3]) for u in uns), reverse=True)
+            for (ln, c0, c1, styp) in edits:
                 L = lines[ln - 1]
                 expr = L[c0 - 1:c1 - 1]
-                lines[ln - 1] = L[:c0 - 1] + "as_dyn_mut(" + expr + ")" + L[c1 - 1:]
+                shim = {"PrefixedStorage": "ps_as_dyn_mut", "StorageTransaction": "tx_as_dyn_mut"}.get(styp, "as_dyn_mut")
+                lines[ln - 1] = L[:c0 - 1] + shim + "(" + expr + ")" + L[c1 - 1:]
                 g.rewrites.append({"rule": "R3-auto", "item": g.out.map[ln - 1].get("fn", ""), "expr": expr})
             g.gen_text = "\n".join(lines)
+            with open(g.gen_path, "w") as fh:
+                fh.write(g.gen_text)
+            res = run_verus(g.gen_path, rlimit=rlimit)
+            fails, tool = classify(g, res)
+        # std functions without a Verus specification that appear in extracted repo code: Verus prints the
+        # assume_specification it wants; it is added WITHOUT any ensures (the result is arbitrary), so everything that
+        # depends on the call has to be proved without knowing what it returns.  Recorded in the evidence.
+        for _hv in range(4):
+            hv = [t for t in tool if t.get("havoc") and t.get("in_src")]
+            if not hv or len(hv) != len(tool):
+                break
+            decls = sorted(set(t["havoc"] for t in hv))
+            text = g.gen_text
+            k = text.rindex("} // verus!")
+            add = "".join("// unspecified std function (result arbitrary)\n" + d + "\n" for d in decls)
+            g.gen_text = text[:k] + add + text[k:]
+            g.havoc = getattr(g, "havoc", []) + decls
+            nl = add.count("\n")
+            idx = g.gen_text[:k].count("\n")
+            g.out.map[idx:idx] = [{"kind": "tmpl", "file": "generated:havoc", "line": 0}] * nl
             with open(g.gen_path, "w") as fh:
                 fh.write(g.gen_text)
             res = run_verus(g.gen_path, rlimit=rlimit)
